@@ -93,7 +93,14 @@ def gen_triple(rng, tier):
     pool, flavour = _pool(rng, tier)
     r = rng.random()
     base = [rng.choice(pool) for _ in range(rng.randint(0, 8))]
-    if r < 0.60:
+    if flavour == "sentinel-start" and rng.random() < 0.5:
+        # a clean merge whose result contains a user line beginning with the sentinel: the sides edit lines far apart
+        shape = "far-apart"
+        base = [rng.choice(PLAIN) for _ in range(rng.randint(4, 8))]
+        this, other = list(base), list(base)
+        this[0] = rng.choice([x for x in pool if x.startswith(SENT)])
+        other[-1] = rng.choice([x for x in PLAIN if x != base[-1]])
+    elif r < 0.60:
         shape = "edits"
         this = _edit(rng, base, pool, rng.randint(1, 3))
         other = _edit(rng, base, pool, rng.randint(1, 3))
@@ -407,7 +414,7 @@ def case(ctx):
             if fid is not None:
                 ctx.check(texts[0].file_id == fid, keyf("conflict-record-file-id"), "record has file id %r, file is %r" % (texts[0].file_id, fid), detail)
             # resolutions, each on its own copy of the conflicted tree
-            if nres < (2 if ctx.tier == "quick" else 3):
+            if nres == 0 or (nres < 3 and rng.random() < 0.4):
                 nres += 1
                 for action, want in (("take_this", tt), ("take_other", to)):
                     via = rng.choice(["cmd", "resolve", "object"])
